@@ -467,11 +467,11 @@ func C01(ctx *core.Ctx) error {
 		oa, sa := c01Load(ms)
 		ctx.Count("load:" + strings.SplitN(sa, ":", 2)[0])
 		type step struct {
-			tk       int
-			ms       *c01Modset
-			obs      string
-			status   string
-			what     string
+			tk     int
+			ms     *c01Modset
+			obs    string
+			status string
+			what   string
 		}
 		chain := []step{{0, ms, oa, sa, ""}}
 
